@@ -199,6 +199,26 @@ func buildRequest(c *kase) (*http.Request, bool) {
 		}
 		r = httptest.NewRequest("POST", "/graphql", strings.NewReader(q.Encode()))
 		r.Header.Set("Content-Type", "application/x-www-form-urlencoded")
+	case "get-body-json", "get-body-gqljson", "get-body-graphql", "get-body-form", "get-body-json+url":
+		// an HTTP GET that carries a body (legal, unusual): whatever transport claims it, a GET
+		// must never execute anything but a query
+		ct := map[string]string{"get-body-json": "application/json", "get-body-gqljson": "application/graphql+json",
+			"get-body-graphql": "application/graphql", "get-body-form": "application/x-www-form-urlencoded", "get-body-json+url": "application/json"}[c.Enc]
+		target := "/graphql"
+		if c.Enc == "get-body-json+url" {
+			target += "?query=" + url.QueryEscape("{ q1 }")
+		}
+		var body []byte
+		switch c.Enc {
+		case "get-body-graphql":
+			body = []byte(c.Doc.Text)
+		case "get-body-form":
+			body = jsonParams(c, true)
+		default:
+			body = jsonParams(c, false)
+		}
+		r = httptest.NewRequest("GET", target, bytes.NewReader(body))
+		r.Header.Set("Content-Type", ct)
 	case "none-put-json", "none-delete", "none-patch-json":
 		m := map[string]string{"none-put-json": "PUT", "none-delete": "DELETE", "none-patch-json": "PATCH"}[c.Enc]
 		r = httptest.NewRequest(m, "/graphql", bytes.NewReader(jsonParams(c, false)))
@@ -234,6 +254,7 @@ func (c *kase) key() string {
 }
 
 var productEncodings = []string{"get", "post-json", "graphql-raw", "form-json", "form-raw", "form-kv", "multipart"}
+var getBodyEncodings = []string{"get-body-json", "get-body-gqljson", "get-body-graphql", "get-body-form", "get-body-json+url"}
 var noTransportEncodings = []string{"none-put-json", "none-delete", "none-patch-json", "none-post-text", "none-post-noct"}
 var apqModes = []string{"none", "register", "hash-only"}
 
@@ -256,6 +277,24 @@ func allCases() []*kase {
 								}
 							}
 						}
+					}
+				}
+			}
+		}
+	}
+	// GET requests with a body
+	for _, d := range docs {
+		if d.Text == "" {
+			continue
+		}
+		for _, name := range d.nameChoices() {
+			for _, enc := range getBodyEncodings {
+				if (enc == "get-body-graphql") && name != "" {
+					continue
+				}
+				for h := range rhSettings {
+					for o := range transportOrders {
+						out = append(out, &kase{Doc: d, OpName: name, Enc: enc, Accept: 0, RH: h, Order: o, APQ: "none"})
 					}
 				}
 			}
@@ -322,6 +361,9 @@ func judge(c *kase, e *expectation, o *observation) []problem {
 	}
 	if o.Recover > 0 {
 		add("recover-hook-fired:"+tr, "RecoverFunc invoked %d times although no resolver panics", o.Recover)
+	}
+	if e.Outcome == "get-with-body" {
+		return ps // only the rules above are stated for this unusual request shape
 	}
 	// (3) the body is a JSON GraphQL response
 	body, hasData, hasErrors, berr := txharness.GraphQLBody([]byte(o.Body))
@@ -487,7 +529,7 @@ func main() {
 	if !exhaustive {
 		sel := cases[:0:0]
 		for _, c := range cases {
-			if pick(seed, c.key())%10 == 0 {
+			if pick(seed, c.key())%10 == 0 || strings.HasPrefix(c.Enc, "get-body") {
 				sel = append(sel, c)
 			}
 		}
